@@ -57,9 +57,9 @@ pub const LEXEMES: [&str; 18] = ["chars", "glue", "(", ")", "[", "]", ",", "=", 
 
 /// Pieces of well-formed programs (calls, argument fragments, brackets, comments, white space): most
 /// short concatenations parse, with comments and line breaks in every position `format` has to handle.
-pub const PROGRAM_PIECES: [&str; 24] = [
+pub const PROGRAM_PIECES: [&str; 26] = [
     "chars(\"ab\")", "chars(\"a\", font=1)", "glue(1pt, 2fil, 3pt)", "glue(", "width=1pt", "1pt", ",", ")", "hbox(content=[", "])", "]", "#c\n", "\n", " ", "kern(-.5pt)", "penalty(1,)", "vbox(", "content=[",
-    "disc(pre_break=[", "rule(\"running\"", "chars(\"é日𝄞\")", "#é日𝄞\n", "#c", "\r\n",
+    "disc(pre_break=[", "rule(\"running\"", "chars(\"é日𝄞\")", "#é日𝄞\n", "#c", "\r\n", "\r", "#(",
 ];
 
 /// Pieces for the inside of a string literal: the escape machine of the lexer.
